@@ -4,6 +4,7 @@ from gen import SeqGen
 from props.c20 import seg_table, _same_arrays
 
 ID = "C08"
+UNIVERSAL_EVERY = 6      # every n-th case is a feature-rich random program (props/universal.py)
 LEAN_MODULE = "BB.Properties.C08"
 QUICK_N = 90
 THOROUGH_N = 2000
